@@ -2,7 +2,10 @@
 HOOK_COMMITS = ["5bd405e"]
 NOTES = ("See DESIGN.md. Every check = static Coq theorems (full make, Print Assumptions re-run per check) + correspondence of the "
          "hand-written Coq model with /repo's current working tree, judged inside Coq by vm_compute; a broken obligation or "
-         "correspondence triggers a search for a concrete failing input (the property's monitor evaluated on the implementation's observations).")
+         "correspondence triggers a search for a concrete failing input (the property's monitor evaluated on the implementation's observations). "
+         "Tables the models take from the source are regenerated from the working tree on every run by small translators and compared by per-run Coq obligations: "
+         "printf call graph (C10), lock shape of the Ctrl+O handler (C19), open flags of the -log file (C11), mux routing table (C09, C06), event watcher "
+         "actions (C12, C04), chain of callback-address sources (C07), order of rmain's start-up steps and abrupt exits (C20).")
 TB = "Trusted: Coq 8.16.1 kernel + vm_compute (no native_compute, no axioms: Print Assumptions 'Closed under the global context'); "
 CLAIMED = {
  "C15": {"text": "Coq theorems over the model of lib/uu (round trip, decoder totality/no panic, append shape, both Max*Len bounds, output alphabet, "
